@@ -14,7 +14,7 @@ RULE = (
     "scripted dial functions; threaded: the real ReaderThread / TCPTransport / connect threads over fake "
     "serial_for_url, socket, select and a simulated time module, events applied at quiescent points} x "
     "reconnect_timeout in {0.5, 2, 10} x Hypothesis-generated scripts of <= 12 events: dial outcomes (fail / "
-    "timeout / ok), data, read error, write error, abrupt close, orderly close by the peer (TCP), user "
+    "timeout / ok), data, read error, write error (on a provoked reply, or armed for whatever write comes next - the keep-alive probe), abrupt close, orderly close by the peer (TCP), user "
     "disconnect(), stop(), advance(dt); for TCP a probe-answer latency pattern (each probe answered after "
     "l in [0, 0.9*RT], or never from time t0). Reference supervisor: one on_conn_made per established connection; "
     "one on_conn_lost per ended connection with the error object or None; after every loss the user did not "
